@@ -117,6 +117,7 @@ def gen_instance(rng, allow_ext=True):
             inner = gen_instance(rng, allow_ext=False)
         iopts = gen_opts(rng, 1.0)
         iopts['show_progress'] = False      # what the inner solve prints would be attributed to the outer call
+        iopts.pop('debug', None)
         inst['nested'] = {'inst': inner, 'at': sorted(rng.sample(range(2, 14), rng.randint(1, 3))), 'opts': iopts}
     inst['solver'] = solver
     if kind in ('conelp', 'coneqp', 'cpl', 'cp') and not (inst['dims']['q'] or inst['dims']['s']) and rng.random() < 0.3:
@@ -289,8 +290,9 @@ def do_call(inst, m, options):
 
 # ----------------------------------------------------------------------------- option model
 
-VALID = {'maxiters': [1, 2, 3, 5, 8, 30, 100], 'abstol': [1e-7, 1e-3, 1e-10, 1e-2], 'reltol': [1e-6, 1e-2, 1e-9],
-         'feastol': [1e-7, 1e-3, 1e-9], 'refinement': [0, 1, 2], 'show_progress': [True, False]}
+VALID = {'maxiters': [1, 2, 3, 5, 8, 30, 100], 'abstol': [1e-7, 1e-3, 1e-10, 1e-2, -1.0, 1], 'reltol': [1e-6, 1e-2, 1e-9, -1.0],
+         'feastol': [1e-7, 1e-3, 1e-9, 1], 'refinement': [0, 1, 2], 'show_progress': [True, False],
+         'kktreg': [0.0, 1e-9, 1e-6, 0], 'use_correction': [False, True], 'debug': [True, False]}
 INVALID = [('maxiters', 0), ('maxiters', -3), ('maxiters', 2.5), ('maxiters', 'ten'), ('feastol', -1.0), ('feastol', 0.0),
            ('feastol', 'x'), ('abstol', 'x'), ('reltol', 'tiny'), ('refinement', -1), ('refinement', 1.5), ('kktreg', -1.0),
            ('kktreg', 'a')]
@@ -299,7 +301,7 @@ INVALID = [('maxiters', 0), ('maxiters', -3), ('maxiters', 2.5), ('maxiters', 't
 def gen_opts(rng, quiet_bias=0.7):
     o = {}
     for k in VALID:
-        if rng.random() < 0.4:
+        if rng.random() < (0.4 if k not in ('kktreg', 'use_correction', 'debug') else 0.12):
             o[k] = rng.choice(VALID[k])
     if 'show_progress' not in o and rng.random() < quiet_bias:
         o['show_progress'] = False
@@ -754,7 +756,7 @@ def run_case(case, refs=None):
                     if r.get('iterations') is not None and r['iterations'] > mi:
                         violation = V('maxiters', entry, '%s: %d iterations with maxiters=%d' % (where, r['iterations'], mi))
                         break
-                    if eff.get('show_progress', True) is False and o['stdout']:
+                    if eff.get('show_progress', True) is False and not eff.get('debug') and o['stdout']:      # 'debug' has its own output
                         violation = V('show_progress', entry, '%s: printed %d chars although show_progress is False' % (where, len(o['stdout'])))
                         break
                     ft_ = eff.get('feastol', 1e-7)
